@@ -82,7 +82,7 @@ func hasHeapPtr4(t types.Type, depth int) bool {
 // heapVar: the synthetic variable standing for the table
 func (c *m3) heapVar() types.Object {
 	if c.heapObj == nil {
-		c.heapObj = types.NewVar(c.fn.Pos(), c.p.tpkg, heapName4(), types.Typ[types.Invalid])
+		c.heapObj = types.NewVar(c.fn.Pos(), c.p.tpkg, synthMark+heapName4(), types.Typ[types.Invalid])
 		c.names[c.heapObj] = heapName4()
 	}
 	return c.heapObj
